@@ -330,23 +330,30 @@ def rule_scalar_range(ctx, rep, facts):
     lst = model.cls('block_token.List')
     li = model.cls('block_token.ListItem')
     rep.instance(rule)
-    for leaders, want in ((['7.', '9.'], 7), (['3)', '1)'], 3), (['-', '-'], None), (['*'], None), (['10.', '11.'], 10),
-                          (['0.'], 0), (['123456789)'], 123456789), (['007.'], 7), (['+'], None)):
-        it = Interp(model)
+    from .. import blockproto
+    fw = model.cls('block_tokenizer.FileWrapper')
+    mt = model.func('block_tokenizer.make_tokens')
+    active = blockproto.default_block_types(ctx)
+    for src, want in (('7. a\n9. b\n', 7), ('3) a\n1) b\n', 3), ('- a\n- b\n', None), ('* a\n', None), ('10. a\n11. b\n', 10),
+                      ('0. a\n', 0), ('123456789) a\n', 123456789), ('007. a\n', 7), ('+ a\n', None)):
+        # List.read and the List constructor, folded on the source of a list (the item constructors' inline work stubbed)
+        it = Interp(model, loop_bound=16, while_bound=16)
         it.reset_run(Oracle())
-        queue = list(leaders)
-        it.func_hooks['construct:' + li.qualname] = lambda interp, cls_, args, kwargs: Obj(li, {'leader': queue.pop(0), 'loose': False})
+        it.gstate[(PKG + '.block_token', '_token_types')] = list(active)
+        it.func_hooks[mt.qualname] = lambda interp, fi, args, kwargs: []
         try:
-            o = it.construct(lst, [[('pb', 0, 2, l, 1) for l in leaders]], {})
+            w = it.construct(fw, [src.splitlines(keepends=True)], {})
+            matches = it.call(it.getattr(lst, 'read'), [w], {})
+            o = it.construct(lst, [matches], {})
             got = o.attrs.get('start', MISSING)
         except Raised as e:
             got = 'raises %s' % e.exc.kind
         ok = got == want and type(got) is type(want)
-        rep.obligation(rule, ok, {'List markers': leaders, 'start': repr(got), 'expected': repr(want)})
+        rep.obligation(rule, ok, {'list': src, 'start': repr(got), 'expected': repr(want)})
         if not ok:
-            rep.find(rule, 'block_token.List.__init__', 'start(%s)' % ('ordered' if want else 'bullet'),
-                     'a list whose item markers are %s gets start=%r; expected %r (number of the first marker, None for bullets)'
-                     % (leaders, got, want), loc(model.unit_of(lst), lst.node))
+            rep.find(rule, 'block_token.List.__init__', 'start(%s)' % ('ordered' if want is not None else 'bullet'),
+                     'the list %r gets start=%r; expected %r (number of the first marker, None for bullets)'
+                     % (src, got, want), loc(model.unit_of(lst), lst.node), witness=src)
 
 
 def rule_new_fresh(ctx, rep):
